@@ -828,6 +828,18 @@ func cliSearch(cf *lib.CaseFile, rng *lib.Rng, f lib.Flags) {
 			cases = append(cases, cliCase{kind: "deterministic", query: q, args: []string{q, "-o", format}})
 		}
 	}
+	// every command-line option that changes what is run (--describe, --optimize=false) x query shapes with an outermost
+	// ORDER BY, LIMIT, both, GROUP BY, join, subquery x every output format
+	for _, q := range []string{"SELECT * FROM small.csv x ORDER BY x.i", "SELECT * FROM small.csv x ORDER BY x.i DESC, x.s LIMIT 2", "SELECT x.i FROM small.csv x LIMIT 1",
+		"SELECT x.s, COUNT(*) AS c FROM small.csv x GROUP BY x.s ORDER BY c", "SELECT a.i, c.s FROM small.csv a JOIN small.csv c ON a.i = c.i ORDER BY a.i",
+		"SELECT * FROM range(start=>0, end=>3) r ORDER BY r.i DESC", "SELECT q.i FROM (SELECT x.i AS i FROM small.csv x ORDER BY i LIMIT 2) q ORDER BY q.i", "SELECT * FROM j.json j ORDER BY j.n, j.s LIMIT 3",
+		"SELECT * FROM small.csv x", "SELECT DISTINCT x.b FROM small.csv x ORDER BY x.b"} {
+		for _, format := range []string{"json", "csv", "batch_table", "stream_native"} {
+			for _, opts := range [][]string{{"--describe"}, {"--optimize=false"}, {"--describe", "--optimize=false"}} {
+				cases = append(cases, cliCase{kind: "deterministic", query: q, args: append([]string{q, "-o", format}, opts...)})
+			}
+		}
+	}
 	// table valued function arguments from the expression grammar: every interval argument of every TVF with computed
 	// intervals that are zero, negative, or ordinary (a check that only looks at literals misses the computed ones)
 	intervals := []string{"INTERVAL 1 SECOND - INTERVAL 1 SECOND", "INTERVAL 5 SECONDS * 0", "0 * INTERVAL 1 HOUR", "INTERVAL 1 SECOND - INTERVAL 2 SECONDS",
